@@ -202,6 +202,33 @@ def check_cfg(fx, rep, crate, cfg):
               'the server loop contains panicking calls: %s' % bad)
 
 
+PANICKY = ('unwrap', 'expect', 'unwrap_err', 'expect_err', 'begin_panic', 'panic', 'panic_fmt', 'unwrap_unchecked', 'unreachable', 'unimplemented', 'todo')
+
+
+def check_connection_panics(fx, rep, crate, cfg):
+    """R09.11: the receive / send paths the loop executes for every connection contain no panicking call of zlink's own code"""
+    n = 0
+    bad = []
+    for b in crate.bodies:
+        if b.in_test or not (b.impl_self and ('read_connection::ReadConnection' in b.impl_self or 'write_connection::WriteConnection' in b.impl_self)):
+            continue
+        n += 1
+        for blk, t in b.iter_terms('call'):
+            if t.get('mac') or b.is_cleanup(blk):
+                continue
+            nm = t['callee'].get('name') or ''
+            d = t['callee'].get('def') or ''
+            if nm in PANICKY or 'panicking::' in d:
+                bad.append((b, blk, nm))
+    for b, blk, nm in bad:
+        rep.bad('R09.11', '%s|panicking-call|%s|%s' % (b.path.split('::{closure')[0], nm, cfg), C.where(b, blk),
+                '`%s` in %s can panic while the server task handles one connection: the panic unwinds through Server::run and ends every connection, '
+                'not only the faulty one (return the error instead)' % (nm, b.path.split('::{closure')[0]))
+    rep.check(not bad, 'R09.11', 'connection-code|no-panicking-call|%s' % cfg, 'zlink-core/src/connection',
+              'no unwrap / expect / panic call of zlink\'s own code in the %d ReadConnection / WriteConnection bodies the server loop runs' % n,
+              '%d panicking calls in the connection code' % len(bad))
+
+
 STRUCTURAL = {'push', 'swap_remove', 'remove', 'clear', 'truncate', 'drain', 'insert', 'pop', 'retain', 'retain_mut', 'append', 'split_off', 'reserve',
               'reserve_exact', 'shrink_to_fit', 'shrink_to', 'dedup', 'dedup_by', 'dedup_by_key', 'resize', 'resize_with', 'extend', 'extend_from_slice', 'set_len',
               'splice', 'take', 'replace', 'swap'}
@@ -297,12 +324,16 @@ def check(fx, rep, tier):
     rep.rule('R09.4', 'the receive path cannot index out of bounds on client-controlled lengths (R01.4)')
     rep.rule('R09.6', 'the receive path keeps its buffer and cursor invariants across cancellation (R07.1-R07.3 of C07)')
     rep.rule('R09.5', 'no unwrap / expect / panic call of zlink code inside the server loop')
+    rep.rule('R09.11', 'no unwrap / expect / panic call of zlink code in the ReadConnection / WriteConnection code the server runs for every connection (a panic there ends all connections)')
     for cfg in ['full'] + (['ws'] if tier == 'thorough' else []):
         crate = fx.crate('zlink_core', cfg)
         check_cfg(fx, rep, crate, cfg)
         check_laundering(fx, rep, crate, cfg)
+        check_connection_panics(fx, rep, crate, cfg)
         import_receive_index_safety(fx, rep, crate, cfg)
     import imports
     imports.cancel_safety(fx, rep, 'R09.6', 'the server loop cancels the pending receive of every other connection on each iteration: a receive path that breaks its cursor / buffer '
                           'invariants across a cancellation panics or stalls inside Server::run and takes every connection down')
+    import imports as _imp
+    _imp.layer(fx, rep, 'C09')
     return META
